@@ -41,7 +41,8 @@ def sh(cmd, timeout=1200, env=None, cwd=None, stdin=None, check=False):
 
 def make(*targets, opt=None):
     """(Re)build harness targets from /repo's working tree (incremental)."""
-    os.makedirs(BUILD, exist_ok=True)
+    for sub in ("", "tmp", "replay", "tlc"):
+        os.makedirs(os.path.join(BUILD, sub), exist_ok=True)
     cmd = ["make", "-s", "-j%d" % NCPU, "-C", os.path.join(V, "harness"),
            "REPO=" + REPO, "V=" + V, "B=" + BUILD]
     if opt:
